@@ -113,7 +113,16 @@ def gen_points(rng):
     elif kind == "collinear":
         a = (q(rng.uniform(-100, 100)), q(rng.uniform(-100, 100)))
         d = (rng.choice([1.0, 2.0, -3.0]), rng.choice([0.0, 1.0, -2.0]))
-        pts = [(a[0] + d[0] * k, a[1] + d[1] * k) for k in sorted(rng.sample(range(0, 200), min(n, 100)))]
+        ks = sorted(rng.sample(range(0, 200), min(n, 100)))
+        if rng.random() < 0.5:
+            # an exactly collinear stroke that goes out and comes back (integer data: cross products vanish exactly): the samples beyond
+            # the last point are part of the stroke and must be approximated like any others
+            a = (float(round(a[0])), float(round(a[1])))
+            d = (rng.choice([3.0, 1.0, -2.0]), rng.choice([4.0, 1.0, 0.0, -1.0]))
+            m = rng.randrange(1, len(ks)) if len(ks) > 2 else 1
+            ks = ks[:m] + sorted(ks[m:], reverse=True)
+            rng.random() < 0.5 and ks.append(ks[m - 1] // 2)
+        pts = [(a[0] + d[0] * k, a[1] + d[1] * k) for k in ks]
     else:
         pts = [(q(rng.uniform(-200, 200)), q(rng.uniform(-200, 200))) for _ in range(n)]
         if kind == "adjacent-repeat" and len(pts) >= 2:
